@@ -18,7 +18,16 @@
       annotated trace is [stof g (view t)]: once the watched node is marked it is "erase -> false", whatever t's view
       says.  The marking thread re-linearizes all watchers (global list [b_wl]).
     - [e_h1] every link at level l points to a node of height > l;  [e_h2] a published node whose level-0 cell is
-      marked has all cells 1 .. height-1 marked. *)
+      marked has all cells 1 .. height-1 marked.
+    - extract_min / extract_max (Proofs/SkipListFullExt{,2}.v): [client_history] presents "extract -> k" as "erase k -> true",
+      but only once the response is in the trace (it looks ahead with [first_res]); a pending extract is presented as a
+      strict SExtractMin / SExtractMax.  The invariant therefore relates the annotated trace to [history_h tg]: [history_of]
+      in which the open extract of thread t is presented with the HINT [tg t] as its future response.  The hint is a
+      function of t's view ([tgof]): (1, k) from the level-0 mark CAS of the extract (the status of the VIEW is then
+      "extract returned k", in the annotated trace the invocation is re-targeted to "erase k" and linearized, [emap],
+      [IL2_mark_ext]) until the response, (0, 0) otherwise.  [l2_pinv]: the open invocations of a thread in the trace are
+      those its view says.  [c_noex]: programs without extract have no extract invocation in the trace, so that the hint
+      is irrelevant ([history_h_irrel] in SkipListFullThm.v). *)
 From Coq Require Import ZArith List String Bool Lia PeanoNat.
 From LV Require Import Base.Conc Base.Events Base.Lin Spec.Specs Proofs.LinProofs.
 From LV Require Import Model.SkipList Proofs.SkipListProofs Proofs.SkipListLin.
@@ -37,8 +46,54 @@ Proof.
   destruct (c =? 1); [reflexivity|]. destruct (c =? 6); [reflexivity|]. destruct (c =? 10); [reflexivity|discriminate].
 Qed.
 
-Definition noext_tr (tr : list (nat * ev)) : Prop :=
-  forall t x y, In (t, EvCli "inv"%string [x; y]) tr -> cok x = true.
+Lemma enc_res_cok c a : cok c = true -> enc_res c a = RBool (a =? 1).
+Proof.
+  unfold cok, enc_res. intros H. destruct (Z.eqb_spec c 1) as [->|]; [reflexivity|]. destruct (Z.eqb_spec c 6) as [->|]; [reflexivity|].
+  destruct (Z.eqb_spec c 10) as [->|]; [reflexivity|discriminate].
+Qed.
+
+(** [history_h tg pend tr]: [history_of] where an extract_min / extract_max invocation that has no response yet is rendered with
+    the HINT [tg t] as its future response.  (The real [client_history] renders it with (0, 0), i.e. as a strict
+    SExtractMin, also when the thread has already marked its victim; once the response is in the trace the hint is
+    irrelevant.) *)
+Definition hint := nat -> (Z * Z)%type.
+
+Fixpoint history_h (tg : hint) (pend : nat -> Z) (tr : list (nat * ev)) : history SetSpec :=
+  match tr with
+  | [] => []
+  | (t, EvCli name [x; y]) :: r =>
+      if String.eqb name "inv" then
+        @HInv SetSpec t (match first_res t r with Some (a, b) => enc_op x y a b | None => enc_op x y (fst (tg t)) (snd (tg t)) end)
+          :: history_h tg (fun u => if Nat.eqb u t then x else pend u) r
+      else if String.eqb name "res" then @HRes SetSpec t (enc_res (pend t) x) :: history_h tg pend r
+      else history_h tg pend r
+  | _ :: r => history_h tg pend r
+  end.
+
+Lemma history_h_of : forall tr pend, history_h (fun _ => (0, 0)) pend tr = history_of pend tr.
+Proof.
+  induction tr as [|[t v] r IH]; intros pend; [reflexivity|]. destruct v as [k o ok|name args]; [apply IH|].
+  destruct args as [|x [|y [|z w]]]; try apply IH. cbn [history_h history_of].
+  destruct (String.eqb name "inv"); [destruct (first_res t r) as [[a b]|]; cbn [fst snd]; now rewrite IH|].
+  destruct (String.eqb name "res"); [now rewrite IH|apply IH].
+Qed.
+
+Lemma history_h_ext tg tg' : (forall u, tg' u = tg u) -> forall tr pend, history_h tg' pend tr = history_h tg pend tr.
+Proof.
+  intros E. induction tr as [|[t v] r IH]; intros pend; [reflexivity|]. destruct v as [k o ok|name args]; [apply IH|].
+  destruct args as [|x [|y [|z w]]]; try apply IH. cbn [history_h]. rewrite E, !IH. reflexivity.
+Qed.
+
+(** the invocations of thread t in [tr] that have no response yet *)
+Fixpoint pinv (t : nat) (tr : list (nat * ev)) : list (Z * Z) :=
+  match tr with
+  | [] => []
+  | (u, EvCli name [x; y]) :: r =>
+      if String.eqb name "inv" && Nat.eqb u t then
+        match first_res t r with Some _ => pinv t r | None => (x, y) :: pinv t r end
+      else pinv t r
+  | _ :: r => pinv t r
+  end.
 
 Fixpoint pend_after (pend : nat -> Z) (tr : list (nat * ev)) : nat -> Z :=
   match tr with
@@ -48,62 +103,176 @@ Fixpoint pend_after (pend : nat -> Z) (tr : list (nat * ev)) : nat -> Z :=
   | _ :: r => pend_after pend r
   end.
 
-Definition hev1 (pe : nat -> Z) (e : nat * ev) : history SetSpec :=
+Definition hev1h (tg : hint) (pe : nat -> Z) (e : nat * ev) : history SetSpec :=
   match e with
   | (t, EvCli name [x; y]) =>
-      if String.eqb name "inv" then [@HInv SetSpec t (enc_op x y 0 0)]
+      if String.eqb name "inv" then [@HInv SetSpec t (enc_op x y (fst (tg t)) (snd (tg t)))]
       else if String.eqb name "res" then [@HRes SetSpec t (enc_res (pe t) x)] else []
   | _ => []
   end.
 
-Lemma noext_cons e tr : noext_tr (e :: tr) -> noext_tr tr.
-Proof. intros H t x y Hin. apply (H t x y). now right. Qed.
+Definition is_res_of (t : nat) (e : nat * ev) : bool :=
+  match e with (u, EvCli name [a; b]) => Nat.eqb u t && String.eqb name "res" | _ => false end.
 
-Lemma history_of_snoc : forall tr pend e, noext_tr tr ->
-  history_of pend (tr ++ [e]) = history_of pend tr ++ hev1 (pend_after pend tr) e.
+(** a response event (a, b) of thread t may be appended: it renders t's open invocations as the hint does *)
+Definition resok (tg : hint) (tr : list (nat * ev)) (e : nat * ev) : Prop :=
+  match e with
+  | (t, EvCli name [a; b]) =>
+      String.eqb name "res" = true ->
+      Forall (fun xy => enc_op (fst xy) (snd xy) a b = enc_op (fst xy) (snd xy) (fst (tg t)) (snd (tg t))) (pinv t tr)
+  | _ => True
+  end.
+
+Lemma first_res_one t e : first_res t [e] = match e with (u, EvCli name [a; b]) => if is_res_of t e then Some (a, b) else None | _ => None end.
+Proof. destruct e as [u [k o ok|name args]]; [reflexivity|]. destruct args as [|a [|b [|c w]]]; reflexivity. Qed.
+
+Lemma first_res_snoc t e : forall tr, first_res t (tr ++ [e]) = match first_res t tr with Some r => Some r | None => first_res t [e] end.
 Proof.
-  induction tr as [|[t v] r IH]; intros pend e Hn.
+  induction tr as [|[u v] r IH]; [cbn [app first_res]; destruct (first_res t [e]); reflexivity|]. cbn [app].
+  destruct v as [k o ok|name args]; [exact IH|]. destruct args as [|a [|b [|c w]]]; try exact IH.
+  cbn [first_res]. destruct (Nat.eqb u t && String.eqb name "res"); [reflexivity|exact IH].
+Qed.
+
+Lemma pinv_cons_incl t hd r : incl (pinv t r) (pinv t (hd :: r)).
+Proof.
+  destruct hd as [u [k o ok|name args]]; [apply incl_refl|]. destruct args as [|x [|y [|z w]]]; try apply incl_refl.
+  cbn [pinv]. destruct (String.eqb name "inv" && Nat.eqb u t); [|apply incl_refl]. destruct (first_res t r); [apply incl_refl|apply incl_tl, incl_refl].
+Qed.
+
+Lemma resok_cons tg hd r e : resok tg (hd :: r) e -> resok tg r e.
+Proof.
+  destruct e as [t [k o ok|name args]]; [auto|]. destruct args as [|a [|b [|c w]]]; auto. cbn [resok]. intros H Hn. specialize (H Hn).
+  rewrite Forall_forall in *. intros xy Hin. apply H. now apply (pinv_cons_incl t hd r).
+Qed.
+
+Lemma history_h_snoc tg : forall tr pend e, resok tg tr e ->
+  history_h tg pend (tr ++ [e]) = history_h tg pend tr ++ hev1h tg (pend_after pend tr) e.
+Proof.
+  induction tr as [|[t v] r IH]; intros pend e Hr.
   - cbn [app pend_after]. destruct e as [t [k o ok|name args]]; [reflexivity|].
     destruct args as [|x [|y [|z w]]]; reflexivity.
-  - pose proof (noext_cons _ _ Hn) as Hn'. cbn [app].
-    destruct v as [k o ok|name args]; [cbn [history_of pend_after]; now apply IH|].
-    destruct args as [|x [|y [|z w]]]; try (cbn [history_of pend_after]; now apply IH).
-    cbn [history_of pend_after]. destruct (String.eqb name "inv") eqn:En.
-    + assert (Hc : cok x = true).
-      { apply (Hn t x y). left. apply String.eqb_eq in En. now subst. }
-      assert (E1 : forall rr T, match first_res t rr with
-                                | Some (a, b) => @HInv SetSpec t (enc_op x y a b) :: T
-                                | None => @HInv SetSpec t (enc_op x y 0 0) :: T end = @HInv SetSpec t (sp_op x y) :: T).
-      { intros rr T. destruct (first_res t rr) as [[a b]|]; now rewrite enc_op_cok. }
-      rewrite !E1. cbn [app]. f_equal. now apply IH.
+  - pose proof (resok_cons _ _ _ _ Hr) as Hr'. cbn [app].
+    destruct v as [k o ok|name args]; [cbn [history_h pend_after]; now apply IH|].
+    destruct args as [|x [|y [|z w]]]; try (cbn [history_h pend_after]; now apply IH).
+    cbn [history_h pend_after]. destruct (String.eqb name "inv") eqn:En.
+    + cbn [app]. rewrite IH by exact Hr'. f_equal. f_equal. rewrite first_res_snoc. destruct (first_res t r) as [[a b]|] eqn:Ef; [reflexivity|].
+      rewrite first_res_one. destruct e as [u [k o ok|name' args']]; [reflexivity|]. destruct args' as [|a [|b [|c w]]]; try reflexivity.
+      destruct (is_res_of t (u, EvCli name' [a; b])) eqn:Er; [|reflexivity]. cbn [is_res_of] in Er. apply andb_true_iff in Er. destruct Er as [E1 E2].
+      apply Nat.eqb_eq in E1. subst u. cbn [resok] in Hr. specialize (Hr E2). cbn [pinv] in Hr. rewrite En, Nat.eqb_refl, Ef in Hr. cbn [andb] in Hr.
+      inversion Hr as [|? ? H1 _]; subst. exact H1.
     + destruct (String.eqb name "res"); [cbn [app]; f_equal|]; now apply IH.
 Qed.
 
-Lemma pend_after_ok : forall tr pend t, noext_tr tr ->
-  ((pend t =? 13) || (pend t =? 14) = false) -> ((pend_after pend tr t =? 13) || (pend_after pend tr t =? 14) = false).
+Lemma pinv_snoc t e : forall tr, pinv t (tr ++ [e]) = (if is_res_of t e then [] else pinv t tr) ++ pinv t [e].
 Proof.
-  induction tr as [|[u v] r IH]; intros pend t Hn Hp; cbn [pend_after]; [exact Hp|].
-  pose proof (noext_cons _ _ Hn) as Hn'.
-  destruct v as [k o ok|name args]; [now apply IH|].
-  destruct args as [|x [|y [|z w]]]; try (now apply IH).
-  destruct (String.eqb name "inv") eqn:En; [|now apply IH].
-  apply IH; [exact Hn'|]. destruct (Nat.eqb t u); [|exact Hp].
-  assert (Hc : cok x = true) by (apply (Hn u x y); left; apply String.eqb_eq in En; now subst).
-  unfold cok in Hc. destruct (Z.eqb_spec x 1) as [->|]; [reflexivity|]. destruct (Z.eqb_spec x 6) as [->|]; [reflexivity|].
-  destruct (Z.eqb_spec x 10) as [->|]; [reflexivity|discriminate].
+  induction tr as [|[u v] r IH]; [cbn [app pinv]; destruct (is_res_of t e); reflexivity|]. cbn [app].
+  destruct v as [k o ok|name args]; [exact IH|]. destruct args as [|x [|y [|z w]]]; try exact IH.
+  cbn [pinv]. destruct (String.eqb name "inv" && Nat.eqb u t); [|exact IH].
+  rewrite first_res_snoc, IH. destruct (first_res t r) as [ab|]; [reflexivity|]. rewrite first_res_one.
+  destruct e as [u' [k o ok|name' args']]; [reflexivity|]. destruct args' as [|a [|b [|c w]]]; try reflexivity.
+  destruct (is_res_of t (u', EvCli name' [a; b])); reflexivity.
 Qed.
 
-Lemma client_history_snoc nodes tr e : noext_tr tr ->
-  client_history nodes (tr ++ [e]) = client_history nodes tr ++ hev1 (pend_after (fun _ => 0) tr) e.
-Proof. intros H. unfold client_history. rewrite history_of_snoc by exact H. now rewrite app_assoc. Qed.
+Fixpoint has_inv_tr (t : nat) (tr : list (nat * ev)) : bool :=
+  match tr with
+  | [] => false
+  | (u, EvCli name [x; y]) :: r => (String.eqb name "inv" && Nat.eqb u t) || has_inv_tr t r
+  | _ :: r => has_inv_tr t r
+  end.
 
-Lemma client_history_acc nodes tr t k o ok : noext_tr tr ->
-  client_history nodes (tr ++ Conc.tag t [EvAcc k o ok]) = client_history nodes tr.
-Proof. intros H. cbn [Conc.tag map]. rewrite client_history_snoc by exact H. cbn [hev1]. apply app_nil_r. Qed.
-
-Lemma noext_snoc_acc tr t k o ok : noext_tr tr -> noext_tr (tr ++ Conc.tag t [EvAcc k o ok]).
+Lemma no_pending_no_inv t : forall r, first_res t r = None -> pinv t r = [] -> has_inv_tr t r = false.
 Proof.
-  intros H u x y Hin. apply in_app_or in Hin. destruct Hin as [Hin|[E|[]]]; [eauto|discriminate].
+  induction r as [|[u v] r IH]; intros Hf Hp; [reflexivity|]. destruct v as [k o ok|name args]; [now apply IH|].
+  destruct args as [|x [|y [|z w]]]; try (now apply IH). cbn [first_res pinv has_inv_tr] in *.
+  destruct (Nat.eqb u t && String.eqb name "res") eqn:Er; [discriminate|].
+  destruct (String.eqb name "inv" && Nat.eqb u t) eqn:Ei; [rewrite Hf in Hp; discriminate|]. cbn [orb]. now apply IH.
+Qed.
+
+Lemma pend_after_no_inv t : forall r pend, has_inv_tr t r = false -> pend_after pend r t = pend t.
+Proof.
+  induction r as [|[u v] r IH]; intros pend H; [reflexivity|]. destruct v as [k o ok|name args]; [now apply IH|].
+  destruct args as [|x [|y [|z w]]]; try (now apply IH). cbn [has_inv_tr pend_after] in *. apply orb_false_iff in H. destruct H as [H1 H2].
+  destruct (String.eqb name "inv"); [|now apply IH]. rewrite IH by exact H2. cbn [andb] in H1. rewrite Nat.eqb_sym in H1. now rewrite H1.
+Qed.
+
+Lemma pend_after_pinv t x y : forall tr pend, pinv t tr = [(x, y)] -> pend_after pend tr t = x.
+Proof.
+  induction tr as [|[u v] r IH]; intros pend H; [discriminate|]. destruct v as [k o ok|name args]; [now apply IH|].
+  destruct args as [|x0 [|y0 [|z w]]]; try (now apply IH). cbn [pinv pend_after] in *.
+  destruct (String.eqb name "inv") eqn:En; [|cbn [andb] in H; now apply IH]. cbn [andb] in H.
+  destruct (Nat.eqb_spec u t) as [->|Nu]; [|now apply IH].
+  destruct (first_res t r) eqn:Ef; [now apply IH|]. inversion H; subst.
+  rewrite pend_after_no_inv; [now rewrite Nat.eqb_refl|]. now apply no_pending_no_inv.
+Qed.
+
+(** changing the hint of a thread *)
+Definition upd_tg (tg : hint) (t : nat) (v : Z * Z) : hint := fun u => if Nat.eqb u t then v else tg u.
+
+Definition has_inv (t : nat) (h : history SetSpec) : bool := existsb (MI.is_hinv t) h.
+(** replace the operation of the LAST invocation of thread t in a history *)
+Fixpoint sli (t : nat) (o' : set_op) (h : history SetSpec) : history SetSpec :=
+  match h with
+  | [] => []
+  | HInv u o :: r => if Nat.eqb u t && negb (has_inv t r) then @HInv SetSpec u o' :: r else @HInv SetSpec u o :: sli t o' r
+  | e :: r => e :: sli t o' r
+  end.
+
+Lemma sli_app_hit t o' o : forall l1 l2, has_inv t l2 = false -> sli t o' (l1 ++ @HInv SetSpec t o :: l2) = l1 ++ @HInv SetSpec t o' :: l2.
+Proof.
+  induction l1 as [|e l1 IH]; intros l2 H; cbn [app sli].
+  - now rewrite Nat.eqb_refl, H.
+  - destruct e as [u o0|u r0]; [|now rewrite IH].
+    assert (E : has_inv t (l1 ++ @HInv SetSpec t o :: l2) = true).
+    { unfold has_inv. rewrite existsb_app. cbn [existsb MI.is_hinv]. now rewrite Nat.eqb_refl, orb_true_r. }
+    rewrite E. cbn [negb]. rewrite andb_false_r. now rewrite IH.
+Qed.
+
+Lemma sli_app_r t o' : forall l1 l2, has_inv t l2 = true -> sli t o' (l1 ++ l2) = l1 ++ sli t o' l2.
+Proof.
+  induction l1 as [|e l1 IH]; intros l2 H; [reflexivity|]. cbn [app sli]. destruct e as [u o0|u r0]; [|now rewrite IH].
+  assert (E : has_inv t (l1 ++ l2) = true) by (unfold has_inv in *; rewrite existsb_app, H; apply orb_true_r).
+  rewrite E. cbn [negb]. rewrite andb_false_r. now rewrite IH.
+Qed.
+
+Lemma has_inv_history tg t : forall r pend, has_inv t (history_h tg pend r) = has_inv_tr t r.
+Proof.
+  induction r as [|[u v] r IH]; intros pend; [reflexivity|]. destruct v as [k o ok|name args]; [apply IH|].
+  destruct args as [|x [|y [|z w]]]; try apply IH. cbn [history_h has_inv_tr].
+  destruct (String.eqb name "inv"); [unfold has_inv in *; cbn [existsb MI.is_hinv andb]; now rewrite IH|].
+  cbn [andb orb]. destruct (String.eqb name "res"); [unfold has_inv in *; cbn [existsb MI.is_hinv orb]|]; apply IH.
+Qed.
+
+Lemma pinv_has_inv t : forall r, pinv t r <> [] -> has_inv_tr t r = true.
+Proof.
+  induction r as [|[u v] r IH]; intros H; [now contradiction H|]. destruct v as [k o ok|name args]; [now apply IH|].
+  destruct args as [|x [|y [|z w]]]; try (now apply IH). cbn [pinv has_inv_tr] in *.
+  destruct (String.eqb name "inv" && Nat.eqb u t); [reflexivity|]. cbn [orb]. now apply IH.
+Qed.
+
+Lemma history_h_nopend tg t v : forall r pend, pinv t r = [] -> history_h (upd_tg tg t v) pend r = history_h tg pend r.
+Proof.
+  induction r as [|[u w] r IH]; intros pend H; [reflexivity|]. destruct w as [k o ok|name args]; [now apply IH|].
+  destruct args as [|x [|y [|z w']]]; try (now apply IH). cbn [pinv history_h] in *.
+  destruct (String.eqb name "inv") eqn:En; cbn [andb] in H.
+  - destruct (Nat.eqb_spec u t) as [->|Nu].
+    + destruct (first_res t r) as [[a b]|] eqn:Ef; [|discriminate]. now rewrite IH.
+    + rewrite IH by exact H. unfold upd_tg at 1 2. destruct (Nat.eqb_spec u t); [contradiction|reflexivity].
+  - destruct (String.eqb name "res"); now rewrite IH.
+Qed.
+
+Lemma history_h_retarget tg t v x y : forall r pend, pinv t r = [(x, y)] ->
+  history_h (upd_tg tg t v) pend r = sli t (enc_op x y (fst v) (snd v)) (history_h tg pend r).
+Proof.
+  induction r as [|[u w] r IH]; intros pend H; [discriminate|]. destruct w as [k o ok|name args]; [now apply IH|].
+  destruct args as [|x0 [|y0 [|z w']]]; try (now apply IH). cbn [pinv history_h] in *.
+  destruct (String.eqb name "inv") eqn:En; cbn [andb] in H.
+  - cbn [sli]. destruct (Nat.eqb_spec u t) as [->|Nu]; cbn [andb].
+    + destruct (first_res t r) as [[a b]|] eqn:Ef.
+      * rewrite has_inv_history, pinv_has_inv by (rewrite H; discriminate). cbn [negb]. now rewrite IH.
+      * inversion H as [[E1 E2 E3]]. subst x0 y0. rewrite has_inv_history, (no_pending_no_inv t r Ef E3). cbn [negb].
+        rewrite history_h_nopend by exact E3. unfold upd_tg. now rewrite Nat.eqb_refl.
+    + rewrite IH by exact H. unfold upd_tg at 1 2. destruct (Nat.eqb_spec u t); [contradiction|reflexivity].
+  - destruct (String.eqb name "res"); cbn [sli]; now rewrite IH.
 Qed.
 
 (** ** extended views *)
@@ -149,21 +318,52 @@ Record EX (g : G) (a : aux2) : Prop := {
   e_wl : forall t, xwatch (b_x a t) <> None -> In t (b_wl a)
 }.
 
-(** the status of a thread's operation in the annotated trace *)
-Definition stof (g : G) (lv : lview2) : status SetSpec :=
-  match xwatch (snd lv) with
-  | Some d => if snd (nxt g d 0) then @Linearized SetSpec (SErase (key_of d)) (RBool false) else vst (fst lv)
-  | None => vst (fst lv)
+(** the status of a thread's operation in the annotated trace.  Views keep "extract_min returned k" as
+    [Linearized SExtractMin (RVal (Some k))]; in the annotated trace (and in the client history) that operation is
+    "erase k -> true" ([emap]). *)
+Definition emap (s : status SetSpec) : status SetSpec :=
+  match s with
+  | Linearized SExtractMin (RVal (Some k)) => @Linearized SetSpec (SErase k) (RBool true)
+  | Linearized SExtractMax (RVal (Some k)) => @Linearized SetSpec (SErase k) (RBool true)
+  | _ => s
   end.
 
-Record IL2 (nodes : list (nat * nat)) (g : G) (a : aux2) (tr : list (nat * ev)) : Prop := {
+Definition stof (g : G) (lv : lview2) : status SetSpec :=
+  emap (match xwatch (snd lv) with
+        | Some d => if snd (nxt g d 0) then @Linearized SetSpec (SErase (key_of d)) (RBool false) else vst (fst lv)
+        | None => vst (fst lv)
+        end).
+
+(** the hint of a thread, and its open invocation, as functions of the status of its view *)
+Definition tgof (s : status SetSpec) : Z * Z :=
+  match s with
+  | Linearized SExtractMin (RVal (Some k)) => (1, k)
+  | Linearized SExtractMax (RVal (Some k)) => (1, k)
+  | _ => (0, 0)
+  end.
+Definition op_code (o : set_op) : Z * Z :=
+  match o with
+  | SInsert k => (1, k) | SErase k => (6, k) | SContains k => (10, k) | SUpdate k _ => (3, k)
+  | SExtractMin => (13, 0) | SExtractMax => (14, 0)
+  end.
+Definition pinv_of (s : status SetSpec) : list (Z * Z) :=
+  match s with Idle => [] | Pending o => [op_code o] | Linearized o _ => [op_code o] end.
+
+Definition vtg (a : aux2) : hint := fun t => tgof (vst (fst (view2 a t))).
+
+(** parameters of the invariant: the pre-filled nodes, and whether the programs are known to contain no extract_min /
+    extract_max (then no invocation of the trace is one of those) *)
+Record cfg0 := mkCfg0 { c_nodes : list (nat * nat); c_noex : bool }.
+
+Record IL2 (nodes : cfg0) (g : G) (a : aux2) (tr : list (nat * ev)) : Prop := {
   l2_run : exists S st, lp_run lp_init (aatr (b_base a)) = Some (S, st) /\ (forall t, st t = stof g (view2 a t)) /\
                         abs g (aL (b_base a)) S;
-  l2_hist : erase (aatr (b_base a)) = client_history nodes tr;
-  l2_noext : noext_tr tr
+  l2_hist : erase (aatr (b_base a)) = prefill_history (c_nodes nodes) ++ history_h (vtg a) (fun _ => 0) tr;
+  l2_pinv : forall t, pinv t tr = pinv_of (vst (fst (view2 a t)));
+  l2_noex : c_noex nodes = true -> forall t xy, In xy (pinv t tr) -> cok (fst xy) = true
 }.
 
-Definition Inv2 (nodes : list (nat * nat)) (g : G) (a : aux2) (tr : list (nat * ev)) : Prop :=
+Definition Inv2 (nodes : cfg0) (g : G) (a : aux2) (tr : list (nat * ev)) : Prop :=
   IS g (b_base a) /\ EX g a /\ (IL2 nodes g a tr \/ exhausted tr).
 
 (** ** open operations, observations *)
@@ -376,10 +576,19 @@ Proof.
 Qed.
 
 (** ** the annotated trace *)
+Lemma emap_open s o : MF.open_read s o -> emap s = s.
+Proof.
+  intros [->|(r & -> & Hr)]; [reflexivity|]. destruct o; try reflexivity; discriminate.
+Qed.
+Lemma tgof_open s o : MF.open_read s o -> tgof s = (0, 0).
+Proof. intros [->|(r & -> & Hr)]; [reflexivity|]. destruct o; try reflexivity; discriminate. Qed.
+Lemma pinv_of_open s o : MF.open_read s o -> pinv_of s = [op_code o].
+Proof. intros [->|(r & -> & Hr)]; reflexivity. Qed.
+
 Lemma stof_open g pub t lv o : x_ok g pub t lv -> MF.open_read (vst (fst lv)) o -> MF.open_read (stof g lv) o.
 Proof.
-  intros (W & _) Ho. unfold stof. destruct (xwatch (snd lv)) as [d|] eqn:E; [|exact Ho].
-  destruct (snd (nxt g d 0)); [|exact Ho]. destruct (W d eq_refl) as [_ Hd].
+  intros (W & _) Ho. unfold stof. destruct (xwatch (snd lv)) as [d|] eqn:E; [|now rewrite (emap_open _ _ Ho)].
+  destruct (snd (nxt g d 0)); [|now rewrite (emap_open _ _ Ho)]. destruct (W d eq_refl) as [_ Hd].
   rewrite (open_read_fun _ _ _ Ho Hd). right. exists (RBool false). split; reflexivity.
 Qed.
 
@@ -391,69 +600,116 @@ Proof.
   destruct (e_x _ _ He u) as (W & _). destruct (W d E) as [Hd _]. now rewrite (Hm d Hd).
 Qed.
 
-Section WithNodes.
-Variable nodes : list (nat * nat).
+Lemma vtg_mk a t pub' L' lv' atr' wl' :
+  tgof (vst (fst lv')) = tgof (vst (fst (view2 a t))) -> forall u, vtg (mk_a2 a t pub' L' lv' atr' wl') u = vtg a u.
+Proof.
+  intros E u. unfold vtg. destruct (Nat.eq_dec u t) as [->|Nu]; [now rewrite view2_mk_same|now rewrite view2_mk_other].
+Qed.
 
-(** an access that is not a linearization point and leaves the status of the thread alone *)
+Lemma hist_keep (nodes : list (nat * nat)) a t pub' L' lv' atr' wl' (h : history SetSpec) tr kd ob ok :
+  h = prefill_history nodes ++ history_h (vtg a) (fun _ => 0) tr -> tgof (vst (fst lv')) = tgof (vst (fst (view2 a t))) ->
+  h = prefill_history nodes ++ history_h (vtg (mk_a2 a t pub' L' lv' atr' wl')) (fun _ => 0) (tr ++ Conc.tag t [EvAcc kd ob ok]).
+Proof.
+  intros H E. cbn [Conc.tag map]. rewrite history_h_snoc by exact Logic.I. cbn [hev1h]. rewrite app_nil_r.
+  rewrite (history_h_ext (vtg a) _ (vtg_mk a t pub' L' lv' atr' wl' E)). exact H.
+Qed.
+
+Lemma pinv_keep a t pub' L' lv' atr' wl' tr kd ob ok :
+  (forall u, pinv u tr = pinv_of (vst (fst (view2 a u)))) -> pinv_of (vst (fst lv')) = pinv_of (vst (fst (view2 a t))) ->
+  forall u, pinv u (tr ++ Conc.tag t [EvAcc kd ob ok]) = pinv_of (vst (fst (view2 (mk_a2 a t pub' L' lv' atr' wl') u))).
+Proof.
+  intros H E u. cbn [Conc.tag map]. rewrite pinv_snoc. cbn [is_res_of pinv]. rewrite app_nil_r, H.
+  destruct (Nat.eq_dec u t) as [->|Nu]; [now rewrite view2_mk_same|now rewrite view2_mk_other].
+Qed.
+
+(** an open invocation that has not been linearized can be re-targeted *)
+Lemma lp_retarget (atr : list (aev SetSpec)) S st t o o' :
+  lp_run lp_init atr = Some (S, st) -> st t = @Pending SetSpec o ->
+  exists atr' st', lp_run lp_init atr' = Some (S, st') /\ st' t = @Pending SetSpec o' /\ (forall u, u <> t -> st' u = st u) /\
+                   erase atr' = sli t o' (erase atr).
+Proof.
+  intros Hr Hs. destruct (ML.lp_open_split _ _ _ t o Hr) as (A & B & EA & HB & HP); [rewrite Hs; reflexivity|].
+  specialize (HP Hs). subst atr. rewrite lp_run_app in Hr. destruct (lp_run lp_init A) as [[s1 st1]|] eqn:EA; [|discriminate].
+  cbn [lp_run lp_step] in Hr. destruct (st1 t) eqn:Et; try discriminate.
+  destruct (MI.lp_run_other B s1 (upd st1 t (@Pending SetSpec o)) (upd st1 t (@Pending SetSpec o')) t S st HP) as (st' & K1 & K2 & K3); auto.
+  { intros u Hu. unfold upd. destruct (Nat.eqb_spec u t); congruence. }
+  exists (A ++ @AInv SetSpec t o' :: B), st'. split; [|split; [|split]].
+  - rewrite lp_run_app, EA. cbn [lp_run lp_step]. rewrite Et. exact K1.
+  - rewrite K3. apply upd_same.
+  - exact K2.
+  - rewrite !erase_app. cbn [erase]. symmetry. apply sli_app_hit. unfold has_inv.
+    destruct (existsb (MI.is_hinv t) (erase B)) eqn:E; [|reflexivity]. apply existsb_exists in E. destruct E as (e & He & Hx).
+    rewrite (MI.erase_no_hinv t B HB e He) in Hx. discriminate.
+Qed.
+
+Lemma noex_keep (c : bool) tr t kd ob ok :
+  (c = true -> forall u xy, In xy (pinv u tr) -> cok (fst xy) = true) ->
+  c = true -> forall u xy, In xy (pinv u (tr ++ Conc.tag t [EvAcc kd ob ok])) -> cok (fst xy) = true.
+Proof. intros H Hc u xy. cbn [Conc.tag map]. rewrite pinv_snoc. cbn [is_res_of pinv]. rewrite app_nil_r. now apply H. Qed.
+
+Section WithNodes.
+Variable nodes : cfg0.
+
+(** an access that is not a linearization point and leaves the status of the thread in the annotated trace alone *)
 Lemma IL2_keep g g' a t pub' L' lv' wl' tr kd ob ok :
   IL2 nodes g a tr -> EX g a -> stof g' lv' = stof g (view2 a t) ->
+  tgof (vst (fst lv')) = tgof (vst (fst (view2 a t))) -> pinv_of (vst (fst lv')) = pinv_of (vst (fst (view2 a t))) ->
   (forall n, apub (b_base a) n = true -> snd (nxt g' n 0) = snd (nxt g n 0)) ->
   (forall S, abs g (aL (b_base a)) S -> abs g' L' S) ->
   IL2 nodes g' (mk_a2 a t pub' L' lv' (aatr (b_base a)) wl') (tr ++ Conc.tag t [EvAcc kd ob ok]).
 Proof.
-  intros [(S & st & H1 & H2 & H3) H4 H5] He Hst Hm Ha. constructor; cbn [b_base mk_a2 aatr aL mk_a].
+  intros [(S & st & H1 & H2 & H3) H4 H5 H6] He Hst Htg Hpi Hm Ha. constructor; cbn [b_base mk_a2 aatr aL mk_a].
   - exists S, st. split; [exact H1|]. split; [|now apply Ha].
     intros u. destruct (Nat.eq_dec u t) as [->|Nu]; [rewrite view2_mk_same, Hst; apply H2|].
     rewrite view2_mk_other by exact Nu. rewrite H2. symmetry. now apply stof_other.
-  - now rewrite client_history_acc.
-  - now apply noext_snoc_acc.
+  - now apply hist_keep.
+  - now apply pinv_keep.
+  - now apply noex_keep.
 Qed.
 
 (** an observation by a load: the operation of the thread is (re-)linearized at this instant *)
 Lemma IL2_obs g a t lv' wl' tr kd ob ok o b :
   IL2 nodes g a tr -> EX g a -> MF.open_read (vst (fst (view2 a t))) o ->
   (forall S, abs g (aL (b_base a)) S -> zmem (MF.op_key o) S = b) ->
-  stof g lv' = ostat o b ->
+  vst (fst lv') = ostat o b -> stof g lv' = ostat o b ->
   exists atr', IL2 nodes g (mk_a2 a t (apub (b_base a)) (aL (b_base a)) lv' atr' wl') (tr ++ Conc.tag t [EvAcc kd ob ok]).
 Proof.
-  intros [(S & st & H1 & H2 & H3) H4 H5] He Ho Hz Hst.
+  intros [(S & st & H1 & H2 & H3) H4 H5 H6] He Ho Hz Hvst Hst.
   assert (Hop : MF.open_read (st t) o) by (rewrite H2; eapply stof_open; [apply (e_x _ _ He)|exact Ho]).
   destruct (MF.to_pending _ _ _ _ _ H1 Hop) as (atr0 & st0 & K1 & K2 & K3 & K4).
-  assert (Hoth : forall st1, (forall u, u <> t -> st1 u = st0 u) -> st1 t = stof g lv' ->
-            forall u, st1 u = stof g (view2 (mk_a2 a t (apub (b_base a)) (aL (b_base a)) lv' atr0 wl') u)).
-  { intros st1 E1 E2 u. destruct (Nat.eq_dec u t) as [->|Nu].
-    - unfold view2, mk_a2. cbn [b_base b_x]. rewrite view_mk_same, Nat.eqb_refl. now destruct lv'.
-    - unfold view2, mk_a2. cbn [b_base b_x]. rewrite view_mk_other by exact Nu.
-      destruct (Nat.eqb_spec u t); [contradiction|]. rewrite E1, K3 by exact Nu. apply H2. }
+  assert (Htg : tgof (vst (fst lv')) = tgof (vst (fst (view2 a t)))).
+  { rewrite Hvst, (tgof_open _ _ (ostat_open o b)), (tgof_open _ _ Ho). reflexivity. }
+  assert (Hpi : pinv_of (vst (fst lv')) = pinv_of (vst (fst (view2 a t)))).
+  { rewrite Hvst, (pinv_of_open _ _ (ostat_open o b)), (pinv_of_open _ _ Ho). reflexivity. }
   unfold ostat in Hst. destruct (MF.obs_res o b) as [r|] eqn:Er.
   - exists (atr0 ++ [ALin t]). constructor; cbn [b_base mk_a2 aatr aL mk_a].
     + pose proof (MF.obs_res_step o b r S Er (Hz S H3)) as Hstep.
       exists S, (upd st0 t (@Linearized SetSpec o r)). split; [|split; [|exact H3]].
       * rewrite (MI.lp_run_snoc _ _ _ K1). cbn [lp_step]. rewrite K2.
         change (sstep SetSpec S o) with (set_step S o). rewrite Hstep. reflexivity.
-      * intros u. unfold view2, mk_a2. cbn [b_base b_x]. destruct (Nat.eq_dec u t) as [->|Nu].
-        -- rewrite view_mk_same, Nat.eqb_refl, upd_same. destruct lv'; cbn [fst snd] in *. now rewrite Hst.
-        -- rewrite view_mk_other by exact Nu. destruct (Nat.eqb_spec u t); [contradiction|].
-           rewrite upd_other by exact Nu. rewrite K3 by exact Nu. apply H2.
-    + rewrite client_history_acc by exact H5. rewrite erase_app. cbn [erase]. rewrite app_nil_r. congruence.
-    + now apply noext_snoc_acc.
+      * intros u. destruct (Nat.eq_dec u t) as [->|Nu]; [rewrite view2_mk_same, upd_same; now rewrite Hst|].
+        rewrite view2_mk_other by exact Nu. rewrite upd_other by exact Nu. rewrite K3 by exact Nu. apply H2.
+    + rewrite erase_app. cbn [erase]. rewrite app_nil_r, K4. now apply hist_keep.
+    + now apply pinv_keep.
+    + now apply noex_keep.
   - exists atr0. constructor; cbn [b_base mk_a2 aatr aL mk_a].
     + exists S, st0. split; [exact K1|]. split; [|exact H3].
-      intros u. unfold view2, mk_a2. cbn [b_base b_x]. destruct (Nat.eq_dec u t) as [->|Nu].
-      * rewrite view_mk_same, Nat.eqb_refl. destruct lv'; cbn [fst snd] in *. now rewrite Hst.
-      * rewrite view_mk_other by exact Nu. destruct (Nat.eqb_spec u t); [contradiction|]. rewrite K3 by exact Nu. apply H2.
-    + rewrite client_history_acc by exact H5. congruence.
-    + now apply noext_snoc_acc.
+      intros u. destruct (Nat.eq_dec u t) as [->|Nu]; [rewrite view2_mk_same; now rewrite Hst|].
+      rewrite view2_mk_other by exact Nu. rewrite K3 by exact Nu. apply H2.
+    + rewrite K4. now apply hist_keep.
+    + now apply pinv_keep.
+    + now apply noex_keep.
 Qed.
 
-(** a linearization point that changes the abstract set, the marks of published nodes stay *)
+(** a linearization point that changes the abstract set (or observes the empty set), the marks of published nodes stay *)
 Lemma IL2_lp g g' a t pub' L' lv' wl' tr kd ob ok o :
   IL2 nodes g a tr -> EX g a -> MF.open_read (vst (fst (view2 a t))) o ->
+  tgof (vst (fst lv')) = (0, 0) -> pinv_of (vst (fst lv')) = [op_code o] ->
   (forall n, apub (b_base a) n = true -> snd (nxt g' n 0) = snd (nxt g n 0)) ->
   (forall S, abs g (aL (b_base a)) S -> abs g' L' (fst (set_step S o)) /\ stof g' lv' = @Linearized SetSpec o (snd (set_step S o))) ->
   exists atr', IL2 nodes g' (mk_a2 a t pub' L' lv' atr' wl') (tr ++ Conc.tag t [EvAcc kd ob ok]).
 Proof.
-  intros [(S & st & H1 & H2 & H3) H4 H5] He Ho Hm Ha. destruct (Ha S H3) as [Ha1 Ha2].
+  intros [(S & st & H1 & H2 & H3) H4 H5 H6] He Ho Htg Hpi Hm Ha. destruct (Ha S H3) as [Ha1 Ha2].
   assert (Hop : MF.open_read (st t) o) by (rewrite H2; eapply stof_open; [apply (e_x _ _ He)|exact Ho]).
   destruct (MF.to_pending _ _ _ _ _ H1 Hop) as (atr0 & st0 & K1 & K2 & K3 & K4).
   exists (atr0 ++ [ALin t]). constructor; cbn [b_base mk_a2 aatr aL mk_a].
@@ -462,8 +718,9 @@ Proof.
     + intros u. destruct (Nat.eq_dec u t) as [->|Nu]; [rewrite view2_mk_same, upd_same; congruence|].
       rewrite view2_mk_other by exact Nu. rewrite upd_other by exact Nu. rewrite K3 by exact Nu. rewrite H2.
       symmetry. now apply stof_other.
-  - rewrite client_history_acc by exact H5. rewrite erase_app. cbn [erase]. rewrite app_nil_r. congruence.
-  - now apply noext_snoc_acc.
+  - rewrite erase_app. cbn [erase]. rewrite app_nil_r, K4. apply hist_keep; [exact H4|]. now rewrite Htg, (tgof_open _ _ Ho).
+  - apply pinv_keep; [exact H5|]. now rewrite Hpi, (pinv_of_open _ _ Ho).
+  - now apply noex_keep.
 Qed.
 
 (** re-linearize a list of pending erase(k) as "false" at an instant at which k is absent *)
@@ -502,6 +759,42 @@ Qed.
 Definition watches (a : aux2) (t : nat) (d : ptr) (u : nat) : bool :=
   negb (Nat.eqb u t) && match xwatch (b_x a u) with Some d' => Nat.eqb d' d | None => false end.
 
+(** the common part of the two mark lemmas: after thread t's own "erase k -> true" has been linearized (annotated trace
+    [atr1], statuses [st1]) every failed erase that watches the node is linearized right behind it *)
+Lemma mark_helping g a t del q lv' (wl' : list nat) (atr1 : list (aev SetSpec)) (S : list Z) (st st1 : nat -> status SetSpec) :
+  IS g (b_base a) -> EX g a -> abs g (aL (b_base a)) S -> (forall u, st u = stof g (view2 a u)) ->
+  In del (aL (b_base a)) -> nxt g del 0 = (q, false) ->
+  lp_run lp_init atr1 = Some (zdel (key_of del) S, st1) ->
+  st1 t = @Linearized SetSpec (SErase (key_of del)) (RBool true) -> (forall u, u <> t -> st1 u = st u) ->
+  stof (setnx g del 0 (q, true)) lv' = @Linearized SetSpec (SErase (key_of del)) (RBool true) ->
+  exists (atr' : list (aev SetSpec)) (st' : nat -> status SetSpec), lp_run lp_init atr' = Some (zdel (key_of del) S, st') /\ erase atr' = erase atr1 /\
+    (forall u, st' u = stof (setnx g del 0 (q, true)) (view2 (mk_a2 a t (apub (b_base a)) (aL (b_base a)) lv' atr' wl') u)) /\
+    abs (setnx g del 0 (q, true)) (aL (b_base a)) (zdel (key_of del) S).
+Proof.
+  intros Hs He H3 H2 Hin Hc R1 Ht1 Hoth Hst'. set (k := key_of del) in *. set (g' := setnx g del 0 (q, true)).
+  destruct (abs_mark g (b_base a) S del q Hs H3 Hin Hc) as [A1 A2].
+  assert (Hz : zmem k (zdel k S) = false).
+  { destruct (zmem k (zdel k S)) eqn:E; [|reflexivity]. apply zmem_zdel in E. destruct E; congruence. }
+  assert (Hwat : forall u, watches a t del u = true -> u <> t /\ xwatch (b_x a u) = Some del).
+  { intros u Hu. unfold watches in Hu. apply andb_true_iff in Hu. destruct Hu as [U1 U2].
+    apply negb_true_iff, Nat.eqb_neq in U1. split; [exact U1|]. destruct (xwatch (b_x a u)) as [d'|]; [|discriminate].
+    apply Nat.eqb_eq in U2. now subst. }
+  destruct (relin_all k (watches a t del) (b_wl a) atr1 (zdel k S) st1 R1 Hz) as (atr' & st' & Q1 & Q2 & Q3 & Q4 & _).
+  { intros u Hu. destruct (Hwat u Hu) as [Nu Wu]. rewrite Hoth by exact Nu.
+    rewrite H2. unfold stof. change (snd (view2 a u)) with (b_x a u). rewrite Wu, Hc. cbn [snd].
+    destruct (e_x _ _ He u) as (W & _). destruct (W del Wu) as [_ X]. now rewrite (emap_open _ _ X). }
+  exists atr', st'. split; [exact Q1|]. split; [exact Q2|]. split; [|exact A1].
+  intros u. destruct (Nat.eq_dec u t) as [->|Nu].
+  - rewrite view2_mk_same. rewrite Q4 by (right; unfold watches; now rewrite Nat.eqb_refl). rewrite Ht1. symmetry. exact Hst'.
+  - rewrite view2_mk_other by exact Nu. destruct (watches a t del u) eqn:Ew.
+    + destruct (Hwat u Ew) as [_ Wu]. rewrite Q3; [|apply (e_wl _ _ He); congruence|exact Ew].
+      unfold stof, view2. cbn [snd fst]. rewrite Wu. unfold g'. now rewrite setnx_same.
+    + rewrite Q4 by now right. rewrite Hoth by exact Nu. rewrite H2.
+      unfold stof, view2. cbn [snd fst]. destruct (xwatch (b_x a u)) as [d'|] eqn:Wu; [|reflexivity].
+      unfold g'. rewrite setnx_other0; [reflexivity|]. intros ->.
+      unfold watches in Ew. rewrite Wu, Nat.eqb_refl, andb_true_r in Ew. apply negb_false_iff, Nat.eqb_eq in Ew. contradiction.
+Qed.
+
 (** the level-0 mark CAS of erase: linearization point of the marking thread, and of every failed erase that watches
     the node *)
 Lemma IL2_mark g a t del q lv' wl' tr kd ob ok :
@@ -511,8 +804,8 @@ Lemma IL2_mark g a t del q lv' wl' tr kd ob ok :
   exists atr', IL2 nodes (setnx g del 0 (q, true)) (mk_a2 a t (apub (b_base a)) (aL (b_base a)) lv' atr' wl')
                  (tr ++ Conc.tag t [EvAcc kd ob ok]).
 Proof.
-  intros Hs [(S & st & H1 & H2 & H3) H4 H5] He Ho Hin Hc Hw' Hst'.
-  set (k := key_of del). set (g' := setnx g del 0 (q, true)).
+  intros Hs [(S & st & H1 & H2 & H3) H4 H5 H6] He Ho Hin Hc Hw' Hst'.
+  set (k := key_of del).
   destruct (abs_mark g (b_base a) S del q Hs H3 Hin Hc) as [A1 A2].
   assert (Hop : MF.open_read (st t) (SErase k)) by (rewrite H2; eapply stof_open; [apply (e_x _ _ He)|exact Ho]).
   destruct (MF.to_pending _ _ _ _ _ H1 Hop) as (atr0 & st0 & K1 & K2 & K3 & K4).
@@ -521,30 +814,55 @@ Proof.
   assert (R1 : lp_run lp_init (atr0 ++ [ALin t]) = Some (zdel k S, st1)).
   { rewrite (MI.lp_run_snoc _ _ _ K1). cbn [lp_step]. rewrite K2.
     change (sstep SetSpec S (SErase k)) with (set_step S (SErase k)). rewrite Hstep. reflexivity. }
-  assert (Hz : zmem k (zdel k S) = false).
-  { destruct (zmem k (zdel k S)) eqn:E; [|reflexivity]. apply zmem_zdel in E. destruct E; congruence. }
-  assert (Hwat : forall u, watches a t del u = true -> u <> t /\ xwatch (b_x a u) = Some del).
-  { intros u Hu. unfold watches in Hu. apply andb_true_iff in Hu. destruct Hu as [U1 U2].
-    apply negb_true_iff, Nat.eqb_neq in U1. split; [exact U1|]. destruct (xwatch (b_x a u)) as [d'|]; [|discriminate].
-    apply Nat.eqb_eq in U2. now subst. }
-  destruct (relin_all k (watches a t del) (b_wl a) (atr0 ++ [ALin t]) (zdel k S) st1 R1 Hz) as (atr' & st' & Q1 & Q2 & Q3 & Q4 & _).
-  { intros u Hu. destruct (Hwat u Hu) as [Nu Wu]. unfold st1. rewrite upd_other by exact Nu. rewrite K3 by exact Nu.
-    rewrite H2. unfold stof, view2. cbn [snd fst]. rewrite Wu, Hc. cbn [snd].
-    destruct (e_x _ _ He u) as (W & _). destruct (W del Wu) as [_ X]. exact X. }
+  destruct (mark_helping g a t del q lv' wl' (atr0 ++ [ALin t]) S st st1 Hs He H3 H2 Hin Hc R1) as (atr' & st' & Q1 & Q2 & Q3 & Q4).
+  { unfold st1. apply upd_same. }
+  { intros u Nu. unfold st1. rewrite upd_other by exact Nu. now apply K3. }
+  { unfold stof. now rewrite Hw', Hst'. }
   exists atr'. constructor; cbn [b_base mk_a2 aatr aL mk_a].
-  - exists (zdel k S), st'. split; [exact Q1|]. split; [|exact A1].
-    intros u. destruct (Nat.eq_dec u t) as [->|Nu].
-    + rewrite view2_mk_same. rewrite Q4 by (right; unfold watches; now rewrite Nat.eqb_refl).
-      unfold st1. rewrite upd_same. unfold stof. now rewrite Hw', Hst'.
-    + rewrite view2_mk_other by exact Nu. destruct (watches a t del u) eqn:Ew.
-      * destruct (Hwat u Ew) as [_ Wu]. rewrite Q3; [|apply (e_wl _ _ He); congruence|exact Ew].
-        unfold stof, view2. cbn [snd fst]. rewrite Wu. unfold g'. now rewrite setnx_same.
-      * rewrite Q4 by now right. unfold st1. rewrite upd_other by exact Nu. rewrite K3 by exact Nu. rewrite H2.
-        unfold stof, view2. cbn [snd fst]. destruct (xwatch (b_x a u)) as [d'|] eqn:Wu; [|reflexivity].
-        unfold g'. rewrite setnx_other0; [reflexivity|]. intros ->.
-        unfold watches in Ew. rewrite Wu, Nat.eqb_refl, andb_true_r in Ew. apply negb_false_iff, Nat.eqb_eq in Ew. contradiction.
-  - rewrite client_history_acc by exact H5. rewrite Q2, erase_app. cbn [erase]. rewrite app_nil_r. congruence.
-  - now apply noext_snoc_acc.
+  - exists (zdel k S), st'. auto.
+  - rewrite Q2, erase_app. cbn [erase]. rewrite app_nil_r, K4. apply hist_keep; [exact H4|]. now rewrite Hst', (tgof_open _ _ Ho).
+  - apply pinv_keep; [exact H5|]. now rewrite Hst', (pinv_of_open _ _ Ho).
+  - now apply noex_keep.
+Qed.
+
+Definition is_ext (o : set_op) : bool := match o with SExtractMin | SExtractMax => true | _ => false end.
+
+(** the level-0 mark CAS of extract_min / extract_max: the pending invocation becomes "erase k" (k the key of the
+    victim) and is linearized here; in the view it is "extract returned k" *)
+Lemma IL2_mark_ext g a t del q lv' wl' tr kd ob ok o :
+  IS g (b_base a) -> IL2 nodes g a tr -> EX g a -> is_ext o = true ->
+  vst (fst (view2 a t)) = @Pending SetSpec o -> xwatch (snd (view2 a t)) = None ->
+  In del (aL (b_base a)) -> nxt g del 0 = (q, false) ->
+  xwatch (snd lv') = None -> vst (fst lv') = @Linearized SetSpec o (RVal (Some (key_of del))) ->
+  exists atr', IL2 nodes (setnx g del 0 (q, true)) (mk_a2 a t (apub (b_base a)) (aL (b_base a)) lv' atr' wl')
+                 (tr ++ Conc.tag t [EvAcc kd ob ok]).
+Proof.
+  intros Hs [(S & st & H1 & H2 & H3) H4 H5 H6] He Hx Hv Hw Hin Hc Hw' Hst'.
+  set (k := key_of del).
+  destruct (abs_mark g (b_base a) S del q Hs H3 Hin Hc) as [A1 A2].
+  assert (Hpend : st t = @Pending SetSpec o) by (rewrite H2; unfold stof; now rewrite Hw, Hv).
+  destruct (lp_retarget _ _ _ t o (SErase k) H1 Hpend) as (atr0 & st0 & K1 & K2 & K3 & K4).
+  assert (Hstep : set_step S (SErase k) = (zdel k S, RBool true)) by (cbn [set_step]; unfold k; now rewrite A2).
+  set (st1 := upd st0 t (@Linearized SetSpec (SErase k) (RBool true))).
+  assert (R1 : lp_run lp_init (atr0 ++ [ALin t]) = Some (zdel k S, st1)).
+  { rewrite (MI.lp_run_snoc _ _ _ K1). cbn [lp_step]. rewrite K2.
+    change (sstep SetSpec S (SErase k)) with (set_step S (SErase k)). rewrite Hstep. reflexivity. }
+  destruct (mark_helping g a t del q lv' wl' (atr0 ++ [ALin t]) S st st1 Hs He H3 H2 Hin Hc R1) as (atr' & st' & Q1 & Q2 & Q3 & Q4).
+  { unfold st1. apply upd_same. }
+  { intros u Nu. unfold st1. rewrite upd_other by exact Nu. now apply K3. }
+  { unfold stof. rewrite Hw', Hst'. destruct o; try discriminate; reflexivity. }
+  assert (Hpi : pinv t tr = [op_code o]) by (rewrite H5, Hv; reflexivity).
+  exists atr'. constructor; cbn [b_base mk_a2 aatr aL mk_a].
+  - exists (zdel k S), st'. auto.
+  - rewrite Q2, erase_app. cbn [erase]. rewrite app_nil_r, K4, H4.
+    rewrite sli_app_r by (rewrite has_inv_history; apply pinv_has_inv; rewrite Hpi; discriminate). f_equal.
+    cbn [Conc.tag map]. rewrite history_h_snoc by exact Logic.I. cbn [hev1h]. rewrite app_nil_r.
+    assert (E : enc_op (fst (op_code o)) (snd (op_code o)) 1 k = SErase k) by (destruct o; try discriminate; reflexivity).
+    rewrite <- E. rewrite <- (history_h_retarget (vtg a) t (1, k) _ _ tr (fun _ => 0)) by (rewrite Hpi; destruct (op_code o); reflexivity).
+    apply history_h_ext. intros u. unfold vtg, upd_tg. destruct (Nat.eqb_spec u t) as [->|Nu]; [|now rewrite view2_mk_other].
+    rewrite view2_mk_same, Hst'. destruct o; try discriminate; reflexivity.
+  - apply pinv_keep; [exact H5|]. rewrite Hst', Hv. reflexivity.
+  - now apply noex_keep.
 Qed.
 
 End WithNodes.
